@@ -27,6 +27,11 @@ def run(prog, rep, tier, snap):
     rep.call(fillers.r09_3, prog, rep)
     rep.rule("R09.4", "time-of-day enumeration capacity vs. values admitted by the parser", 3)
     rep.call(fillers.r09_4, prog, rep)
+    rep.call(fillers.r09_4b, prog, rep)
+    rep.rule("R09.9", "the all-weekdays default ignores the `counted weekdays` flag bit", 3)
+    rep.call(fillers.r09_9, prog, rep)
+    rep.rule("R09.10", "the INTERVAL/BYMONTH congruence check looks at the month the fuel-less walk starts from", 1)
+    rep.call(fillers.r09_10, prog, rep)
     rep.rule("R09.5", "divisions by a month length that can be 0 are guarded", 3)
     rep.call(fillers.r09_5, prog, rep)
     rep.rule("R09.7", "an offset day-of-year is bounded above before the remainder-table lookup", 1)
